@@ -223,7 +223,9 @@ void vf_run(const uint8_t *data, size_t len)
     const int cmpmag = (h[4] >> 2) & 1;
     const size_t slack = 1 + (h[4] >> 4);
     const int shape = h[5] % NSHAPE;
-    size_t ns = shape ? (size_t)((h[6] | (h[7] << 8)) % 8001) : 0;
+    // shaped length: u16 when its high byte is < 32, else only the low byte counts (mod 48), so
+    // that arbitrary byte strings (libFuzzer) are mostly small arrays
+    size_t ns = !shape ? 0 : h[7] < 32 ? (size_t)((h[6] | (h[7] << 8)) % 8001) : (size_t)(h[6] % 48);
     const uint8_t param = h[8];
     const unsigned limit = h[9] & 15;         // G1 only: max elements, canonical record order
     const bool strict = g_want_state && limit;
